@@ -618,3 +618,15 @@ PROPS["C44"]["outside"] = ("next_round / epoch_change (round and epoch counters,
                            "statistics: key-value and index collections through the system API), get_current_time / "
                            "compare_current_time readers")
 PROPS["C44"]["assumptions"] = ["the field store returns what was last written (environment stub)"]
+
+
+PROPS["C42"]["functions"].append(
+    "ValidatorBlueprint::calculate_redemption_value (vault amount and stake-unit supply reads are environment stubs; "
+    "native replay through a scripted MockApi) and its composition with calculate_stake_unit_amount (stake then redeem on "
+    "the grown pool)")
+PROPS["C42"]["bounds"] += "; redemption / round trip: amounts up to 10^30 XRD (10^48 attos)"
+PROPS["C42"]["outside"] = ("the unstake / claim bookkeeping around calculate_redemption_value (claim NFTs, pending withdraw "
+                           "vault), owner stake-unit locking, emission and reward distribution loops, validator-set selection "
+                           "in epoch_change")
+PROPS["C42"]["assumptions"] += ["Vault::amount / ResourceManager::total_supply return arbitrary non-negative Decimals "
+                                "(environment stubs); in the round trip they return stake + xrd and supply + minted units"]
